@@ -106,6 +106,7 @@ import re as _re
 _NUM = _re.compile(r'-?(\d+\.?\d*|\.\d+)\Z')
 
 HELPERS = {
+    'int_str': str,
     'numshape': lambda s, a, b: bool(_NUM.match(s[a:b])) and all(c in '-.' or c.isdecimal() for c in s[a:b]),
     'holds': _holds,
     'chars_hold': lambda s, a, b, m: all(_holds(m, s[i]) for i in range(a, b)),
